@@ -30,6 +30,15 @@ fn render_bounded(input: &[u8]) -> Result<String, vcore::Fail> {
         return Err(vcore::Fail::new("size-bound", format!("display of the {}-byte input {} produced more than {} bytes of output (output starts {:?})", input.len(), short_hex(input), sink.limit, &sink.out[.. sink.out.len().min(60)])))
     }
     if r.is_err() { return Err(vcore::Fail::new("fmt-error", format!("display of {} returned a formatting error after {} steps", short_hex(input), steps))) }
+    // the same notation through a tokenizer that borrows a decoder (`Decoder::tokens`): identical text, decoder untouched
+    let mut d = minicbor::Decoder::new(input);
+    let mut sink2 = Bounded { out: String::new(), limit: limit_for(input.len()), refused: false };
+    verif::arm(64 * input.len() as u64 + 1024);
+    let r2 = write!(sink2, "{}", d.tokens());
+    verif::disarm();
+    if sink2.refused || r2.is_err() { return Err(vcore::Fail::new("size-bound", format!("Display of Decoder::tokens() on {} exceeded {} bytes or failed", short_hex(input), sink2.limit))) }
+    if sink2.out != sink.out { return Err(vcore::Fail::new("borrowed-differs", format!("Display of Decoder::tokens() on {} gives {:?}, minicbor::display gives {:?}", short_hex(input), sink2.out, sink.out))) }
+    if d.position() != 0 { return Err(vcore::Fail::new("borrowed-moved", format!("formatting Decoder::tokens() moved the decoder to {}", d.position()))) }
     Ok(sink.out)
 }
 
